@@ -80,6 +80,14 @@ let () =
         if not is_split || (String.length v > 5 && String.sub v (String.length v - 5) 5 = "_skel") then begin
           ok emit (Printf.sprintf "c12.corpus %s ehframe" v);
           ok emit (Printf.sprintf "c12.corpus %s debugframe" v) end) vs);
+  register "c12.line5" ~doc:"line programs built with gimli::write and converted: versions 2-5 x both formats x address sizes 4/8 x both byte orders x every subset of the optional DWARF 5 file entry fields {timestamp, size, MD5, source} x 1..4 files in 3 directories with distinct infos; meaning = rows + complete file entries (exhaustive over that grid)"
+    (fun ~seed ~n:_ emit ->
+      List.iter (fun ver -> List.iter (fun fmt -> List.iter (fun asz -> List.iter (fun be ->
+        for flags = 0 to (if ver >= 5 then 15 else 0) do
+          for nfiles = 1 to 4 do
+            ok emit (Printf.sprintf "c12.line5 %d %d %d %d %d %d %d" be asz fmt ver flags nfiles (seed * 131 + flags * 7 + nfiles))
+          done
+        done) [0; 1]) [4; 8]) [4; 8]) [2; 3; 4; 5]);
   register "c12.cfi" ~doc:"generated one-CIE/one-FDE frame sections: every DW_CFA opcode with boundary operands, large/odd/zero alignment factors, both sections, both endians, address sizes 4/8, CIE versions 1/3/4"
     (fun ~seed ~n emit ->
       let r = mk_rng seed in
